@@ -450,7 +450,14 @@ def c09_job(chk, rng, i):
     p["trail"] = 20
     p["bar"] = 15
     p["alpha"] = b"ab01 \n\n"
+    nul_lines = (i % 3 == 2)
+    if nul_lines:
+        # NUL bytes inside tokens that span lines: the newlines after a NUL count as well
+        p["extra_alpha"] = b"\x00"
     g, case = base_case(chk, rng, p)
+    if nul_lines:
+        case["rules"].append({"scs": None, "bol": False, "trail": None, "act": [],
+                              "pat": ("plus", ("ccl", True, [("c", 97), ("c", 98)]))})
     mode = i % 4
     if mode == 0:
         f = {"ret": 25}
@@ -491,6 +498,10 @@ def c09_job(chk, rng, i):
             for _ in range(3):
                 pos = rng.below(len(s) + 1)
                 s = s[:pos] + rng.choice([b"a\n00", b"b\n0", b"a\nb\n000 "]) + s[pos:]
+        if nul_lines and k % 2 == 1:
+            for _ in range(2):
+                pos = rng.below(len(s) + 1)
+                s = s[:pos] + rng.choice([b"0\x00\n1\n", b" \n\x00\n\n0", b"\x00\x00\n"]) + s[pos:]
         inputs.append({"sources": [s], "sched": rng.choice([[0], [1], [3]])})
     tb = rotate(i // 3, ["", "-Cem", "-C", "-Cfe", "-CFe"])
     fl = flavour4(i, tb)
@@ -509,6 +520,8 @@ def c09_job(chk, rng, i):
                     routes.add("nl_route:" + k)
         else:
             routes.add("rule_without_newline")
+    if nul_lines:
+        routes.add("nul_inside_multiline_tokens")
     return {"case": case, "configs": [cfg], "inputs": inputs, "skip_if": dangerous,
             "expect_build": expect_build, "features": sorted(routes)}
 
@@ -801,10 +814,18 @@ def c03_job(chk, rng, i):
                           "pat": ("plus", ("ccl", False, [("c", 120), ("c", 121)])),
                           "trail": None, "act": []})
     case["driver"] = {"init": [("open_buf", 0)]}
+    mem = ((i // 2) % 2 == 0)
+    if mem and not reject_case:
+        # the long-token rule asks for yymore() now and then; some inputs end in such a token,
+        # so a yymore() can be pending when the end of the text is reached
+        case["rules"][-1]["act"] = [("if", 991, 100, 60, [("more",)])]
+        case["uses"] = sorted(set(case.get("uses", [])) | {"more"})
     ctx = gen.ctx_of(case)
     inputs = []
     for k in range(5):
         s = g.make_input(case, ctx, maxlen=90)
+        if mem and k >= 3:
+            s = s.rstrip(b"\n") + rng.choice([b"x", b"yx", b" xyy"])
         if rng.chance(50):
             pos = rng.below(len(s) + 1)
             s = s[:pos] + bytes(rng.choice(b"xy") for _ in range(rng.choice([5, 20, 70, 200]))) + s[pos:]
@@ -865,5 +886,21 @@ def c03_job(chk, rng, i):
     feats = ["tables:" + (tb or "default"), "kind:%d" % kind]
     if reject_case:
         feats.append("reject_scanner")
+    if mem:
+        # the same bytes handed over in memory: yy_scan_bytes / yy_scan_string (copies) or
+        # yy_scan_buffer (in place).  Such buffers are never refilled, which is its own branch
+        # of the end-of-buffer code (a yymore() pending at the end of the text included)
+        how = rotate(i // 4, ["scan_bytes", "scan_buffer", "scan_string"])
+        if how == "scan_string" and i % 3 == 1:
+            how = "scan_bytes"          # (NUL bytes in the input)
+        first = ("scan_buffer", 1, 0, True) if how == "scan_buffer" else (how, 1, 0)
+        m = dict(base)
+        m["driver"] = {"init": [("open", 0), first]}
+        m["input_filter"] = lambda inp: inp["sched"] == [0] and inp["bufsize"] == 0
+        m["tagx"] = "mem"
+        configs.append(m)
+        feats.append("memory:" + how)
+    for inp in inputs:
+        inp["strings"] = [inp["sources"][0]]
     return {"case": case, "configs": configs, "inputs": inputs, "skip_if": dangerous,
             "expect_build": std_refusals(tb), "features": feats}
